@@ -938,8 +938,10 @@ def run(chk):
                        "tl.norm / tl.solve / tl.truncated_svd are oracles: the norm and the SVD enter the model as rational tape values checked against their contracts "
                        "(s*s = sum of squares; U diag(s) V = M, U^T U = V V^T = I), the solve through the exact certificate sm_apply t x = v on the model's own elimination",
                        "np.argsort tie order is unspecified: hard-thresholding outputs are compared up to the choice among entries of equal magnitude",
-                       "optimality of svd_thresholding / procrustes (von Neumann trace inequality) is a Python predicate (KKT conditions / trace = nuclear norm), not a Coq theorem",
-                       "monotone regression: unconditional optimality is not proved; the KKT certificate (proved sound) is decided exactly on the model's output of every case"]
+                       "svd_thresholding / procrustes: the Coq theorems (C12_procrustes_*, C12_svt_optimal_partial) assume the EXACT contract of the SVD oracle; the per-case "
+                       "tape is checked against that contract to 1e-9 only, and svd_thresholding's competitors are matrices presented with a singular value decomposition",
+                       "the dispatch table of proximal_operator is regenerated from the source by an ast translation on every run (corr:C12-static) and compared with "
+                       "Model/ProxDispatch.pop_of inside Coq; the translator is harness code (trusted), fail-closed on constructs it does not recognise"]
     chk.trusted += ["reference solvers of the predicates (PAVA, bisection simplex projection, sorted top-k, numpy.linalg.svd) - search aids only"]
     return chk.finish(CLASSIFIERS)
 
